@@ -27,7 +27,7 @@ Definition rc (tab : list oentry) (c : Z) : Z := match find_clid tab c with Some
 Record owner := {
   o_tab : list oentry;
   o_next : Z;                 (* next(self.nextCLID) *)
-  o_alloc : list Z;           (* ghost: every clid allocated so far, newest first *)
+  o_alloc : list (Z * Z);     (* ghost: every (clid, object) allocated so far, newest first *)
   o_failed : bool             (* the assertion in decref failed at least once *)
 }.
 
@@ -109,7 +109,7 @@ Definition do_send (s : state) (x : Z) (disc : bool) : state * list event :=
   let '(c, tab, nxt, al) :=
     match find_obj (o_tab o) x with
     | Some e => (oe_clid e, o_tab o, o_next o, o_alloc o)
-    | None => (o_next o, {| oe_obj := x; oe_clid := o_next o; oe_rc := 0 |} :: o_tab o, o_next o + 1, o_next o :: o_alloc o)
+    | None => (o_next o, {| oe_obj := x; oe_clid := o_next o; oe_rc := 0 |} :: o_tab o, o_next o + 1, (o_next o, x) :: o_alloc o)
     end in
   match send (rc tab c) with
   | Ok (_, v) =>
